@@ -34,6 +34,7 @@ mod manifest_io;
 mod gossip_queue;
 mod zset_container;
 mod ckpt_recovery;
+mod compaction;
 use std::panic;
 
 pub struct Found {
@@ -105,6 +106,7 @@ fn main() {
         "zset_container" => zset_container::search(&pid, &oid, seed),
         "recovery_wal" | "recovered_apply" | "recover_segments" => recovery::search(&pid, &oid, seed),
         "ckpt_recovery" => ckpt_recovery::search(&pid, &oid, seed),
+        "compaction" => compaction::search(&pid, &oid, seed),
         _ => None,
     };
     match res {
